@@ -9,19 +9,26 @@ Open Scope Z_scope.
 Definition sweep16 (P : Z -> bool) : bool :=
   forallb (fun hi => forallb (fun lo => P (256 * hi + lo)) (zrange 0 256)) (zrange 0 256).
 
-Lemma sweep16_forall P : sweep16 P = true -> forall n, 0 <= n < 65536 -> P n = true.
+Lemma sweep_forall P (a b : nat) :
+  forallb (fun hi => forallb (fun lo => P (Z.of_nat b * hi + lo)) (zrange 0 b)) (zrange 0 a) = true ->
+  forall n, 0 <= n < Z.of_nat a * Z.of_nat b -> P n = true.
 Proof.
-  intros H n Hn. unfold sweep16 in H.
-  pose proof (range_forall _ _ _ H (n / 256)) as H1. cbv beta in H1.
-  assert (R1 : 0 <= n / 256 < 0 + Z.of_nat 256).
-  { change (Z.of_nat 256) with 256. split; [apply Z.div_pos; lia|apply Z.div_lt_upper_bound; lia]. }
+  intros H n Hn.
+  assert (Hb : 0 < Z.of_nat b) by nia.
+  pose proof (range_forall _ _ _ H (n / Z.of_nat b)) as H1. cbv beta in H1.
+  assert (R1 : 0 <= n / Z.of_nat b < 0 + Z.of_nat a).
+  { split; [apply Z.div_pos; lia|apply Z.div_lt_upper_bound; nia]. }
   specialize (H1 R1).
-  pose proof (range_forall _ _ _ H1 (n mod 256)) as H2. cbv beta in H2.
-  assert (R2 : 0 <= n mod 256 < 0 + Z.of_nat 256).
-  { change (Z.of_nat 256) with 256. pose proof (Z.mod_pos_bound n 256). lia. }
+  pose proof (range_forall _ _ _ H1 (n mod Z.of_nat b)) as H2. cbv beta in H2.
+  assert (R2 : 0 <= n mod Z.of_nat b < 0 + Z.of_nat b).
+  { pose proof (Z.mod_pos_bound n (Z.of_nat b) Hb). lia. }
   specialize (H2 R2).
-  replace (256 * (n / 256) + n mod 256) with n in H2 by (apply Z_div_mod_eq_full). exact H2.
+  replace (Z.of_nat b * (n / Z.of_nat b) + n mod Z.of_nat b) with n in H2
+    by (apply Z_div_mod_eq_full). exact H2.
 Qed.
+
+Lemma sweep16_forall P : sweep16 P = true -> forall n, 0 <= n < 65536 -> P n = true.
+Proof. intros H n Hn. exact (sweep_forall P 256 256 H n Hn). Qed.
 
 (* every proper prefix of word ++ w that ends inside w has a value <= 6552 *)
 Fixpoint small_prefixes (word w : list Z) : bool :=
